@@ -1278,3 +1278,101 @@ func exactIndexArithmetic(r *Run, rule string) {
 	}
 	r.Check(sinks > 0, rule, "census", "", fmt.Sprintf("%d word-to-big.Int conversions in gblsminsig, %d fed by an unguarded machine-word product", sinks, bad))
 }
+
+// viewCloneIndependence (C11.8): what the kernel publishes is Clone() of its views (C11.2/C11.3);
+// that only isolates consumers if Clone itself shares no mutable storage with the original. For
+// the Clone methods of the view types: every field of the type is present in the returned value;
+// a field holding a map or slice (directly or inside a nested view struct) is never the
+// receiver's own field or a re-slice of it; maps are filled with cloned / freshly made elements.
+// ValidatorSet is shared on purpose: validator sets are immutable once built (they are replaced,
+// never edited — C07.1 lists every store).
+func viewCloneIndependence(r *Run, rule string) {
+	w := r.W
+	hasRef := func(t types.Type) bool { return false }
+	var refDepth func(t types.Type, d int) bool
+	refDepth = func(t types.Type, d int) bool {
+		if d > 4 {
+			return false
+		}
+		switch u := t.Underlying().(type) {
+		case *types.Map, *types.Slice, *types.Pointer, *types.Chan:
+			return true
+		case *types.Interface:
+			return true
+		case *types.Struct:
+			for i := 0; i < u.NumFields(); i++ {
+				if refDepth(u.Field(i).Type(), d+1) {
+					return true
+				}
+			}
+		}
+		return false
+	}
+	hasRef = func(t types.Type) bool { return refDepth(t, 0) }
+	shared := map[string]string{"ValidatorSet": "validator sets are immutable values, replaced wholesale and never edited in place"}
+	for _, name := range []string{"tmconsensus.RoundView.Clone", "tmconsensus.VersionedRoundView.Clone", "tmconsensus.VoteSummary.Clone", "tmconsensus.CommitProof.Clone", "tmconsensus.PrevoteSparseProof.Clone", "tmconsensus.PrecommitSparseProof.Clone"} {
+		fn := w.Fn(name)
+		if fn == nil {
+			r.Fail(rule, name, "", "Clone method not found")
+			continue
+		}
+		a := w.AU(fn)
+		rt, _ := fn.Signature.Results().At(0).Type().Underlying().(*types.Struct)
+		var problems []string
+		nret := 0
+		for _, ret := range a.Returns() {
+			v := a.sh.Of(ret.Results[0])
+			if v.K != "lit" {
+				problems = append(problems, "result is not built field by field: "+truncate(v.String(), 80))
+				continue
+			}
+			nret++
+			got := map[string]*Shape{}
+			for i, f := range v.F {
+				got[f] = v.A[i]
+			}
+			for i := 0; rt != nil && i < rt.NumFields(); i++ {
+				f := rt.Field(i)
+				val, ok := got[f.Name()]
+				if !ok {
+					problems = append(problems, "field "+f.Name()+" is not copied")
+					continue
+				}
+				if !hasRef(f.Type()) || shared[f.Name()] != "" {
+					continue
+				}
+				s := val
+				for s.K == "slice" && len(s.A) > 0 {
+					s = s.A[0]
+				}
+				if s.K == "fld" || s.K == "param" || s.K == "load" {
+					problems = append(problems, "field "+f.Name()+" shares the receiver's storage: "+truncate(val.String(), 80))
+				}
+			}
+		}
+		// map elements are cloned or freshly made
+		a.Instrs(func(in ssa.Instruction) {
+			mu, ok := in.(*ssa.MapUpdate)
+			if !ok {
+				return
+			}
+			if et := mu.Value.Type(); !hasRef(et) {
+				return
+			}
+			v := a.sh.Of(mu.Value)
+			fresh := v.K == "make" || ((v.K == "call" || v.K == "invoke") && strings.HasSuffix(v.S, "Clone"))
+			if !fresh {
+				problems = append(problems, "map element stored without cloning: "+truncate(v.String(), 80))
+			}
+		})
+		if nret == 0 && len(problems) == 0 {
+			problems = append(problems, "no return found")
+		}
+		r.Check(len(problems) == 0, rule, name, w.Pos(fn.Pos()), "the copy shares no mutable storage with the original"+func() string {
+			if len(problems) == 0 {
+				return ""
+			}
+			return ": " + strings.Join(problems, "; ")
+		}())
+	}
+}
